@@ -355,7 +355,7 @@ func checkCoercionsRule(p *Prog, l *Ledger, rule string) {
 		m := NewInterpModel(p, key)
 		m.EmitTests = true
 		m.KeepAsEvent = func(c *ssa.Function) bool { return fnName(c) == "ConvertBanglaDigitsToASCII" } // transliteration: C10
-		m.Unroll = 1 // the text case may hand the parsed number to the function itself
+		m.Unroll = 1                                                                                    // the text case may hand the parsed number to the function itself
 		pname := fn.Params[0].Name()
 		m.Explore(fn, []AV{Sym("value")}, func(st *State) { st.Facts["type:value"] = StrV(spec.typ) })
 		_ = pname
@@ -440,7 +440,7 @@ func checkIsEqual(p *Prog, l *Ledger) {
 func wordStringQuiet(w []*Event) string {
 	var parts []string
 	for _, e := range w {
-		if quietOps[e.Op] || e.Op == "flagtest" {
+		if quietOps[e.Op] || e.Op == "flagtest" || trivialNilTest(e) {
 			continue
 		}
 		parts = append(parts, e.String())
